@@ -536,6 +536,74 @@ def rule_stop_tasks_reentrant(ctx):
                 d_self or 'every cancel_if_task_exists(<receiver task>) is behind `is not asyncio.current_task()`')
         rep.add('C17.h', '%s._stop_tasks / a task attribute is cleared only if it still holds the stopped task' %
                 cls.name, f, ok_clear, d_clear or 'every clear after an await is behind `self._x_task is <stopped task>`')
+    # the same hazard anywhere in the library: an attribute read before an await and overwritten after it, while
+    # another method of the class writes it too (so the value may have been replaced during the await), is
+    # overwritten only behind a re-check `self.x is <what was read>`
+    writers = {}
+    funcs = [f for f in ctx.repo.all_functions() if f.module.name.startswith('rsocket.') and
+             not f.module.name.startswith('rsocket.cli')]
+
+    def self_attrs(node, store):
+        return [z for z in ast.walk(node) if isinstance(z, ast.Attribute) and isinstance(z.value, ast.Name) and
+                z.value.id == 'self' and isinstance(z.ctx, ast.Store if store else ast.Load)]
+
+    for f in funcs:
+        for n in walk_local(f.node):
+            ts = n.targets if isinstance(n, ast.Assign) else [n.target] if isinstance(
+                n, (ast.AugAssign, ast.AnnAssign)) else []
+            for t in ts:
+                for z in self_attrs(t, True):
+                    writers.setdefault((f.cls.name if f.cls else None, z.attr), set()).add(f.name)
+    n_sites = 0
+    for f in funcs:
+        if not f.is_async:
+            continue
+        awaits = sorted(n.lineno for n in walk_local(f.node) if isinstance(n, ast.Await))
+        if not awaits:
+            continue
+        first_load = {}
+        for z in self_attrs(f.node, False):
+            if z in list(walk_local(f.node)):
+                first_load[z.attr] = min(first_load.get(z.attr, 10 ** 9), z.lineno)
+        for n in walk_local(f.node):
+            if not isinstance(n, ast.Assign):
+                continue
+            for t in n.targets:
+                if not (isinstance(t, ast.Attribute) and isinstance(t.value, ast.Name) and t.value.id == 'self'):
+                    continue
+                attr = t.attr
+                rd = first_load.get(attr)
+                if rd is None or rd >= n.lineno or not [a for a in awaits if rd <= a <= n.lineno]:
+                    continue
+                others = writers.get((f.cls.name if f.cls else None, attr), set()) - {f.name, '__init__'}
+                if not others:
+                    continue
+                n_sites += 1
+                guarded = False
+                for g in walk_local(f.node):
+                    if isinstance(g, ast.If) and any(x is n for b in g.body for x in ast.walk(b)):
+                        for c in ast.walk(g.test):
+                            if isinstance(c, ast.Compare) and len(c.ops) == 1 and isinstance(c.ops[0], ast.Is) and \
+                                    any(isinstance(x, ast.Attribute) and x.attr == attr
+                                        for x in [c.left] + c.comparators):
+                                guarded = True
+                last_await = max(a for a in awaits if rd <= a <= n.lineno)
+                for g in walk_local(f.node):
+                    # guard clause: `if self.x is not <read>: return`
+                    if isinstance(g, ast.If) and last_await <= g.lineno < n.lineno and g.body and \
+                            isinstance(g.body[-1], (ast.Return, ast.Raise, ast.Continue, ast.Break)):
+                        for c in ast.walk(g.test):
+                            if isinstance(c, ast.Compare) and len(c.ops) == 1 and isinstance(c.ops[0], ast.IsNot) and \
+                                    any(isinstance(x, ast.Attribute) and x.attr == attr
+                                        for x in [c.left] + c.comparators):
+                                guarded = True
+                rep.add('C17.h', '%s / self.%s overwritten after an await only if it is still what was read' % (
+                    f.qualname.split(':')[-1], attr), f, guarded,
+                    'behind `self.%s is <value read before the await>` (other writers: %s)' % (attr, sorted(others))
+                    if guarded else
+                    'self.%s is read at line %d, the function awaits, and line %d overwrites it without re-checking; %s '
+                    'also write it, so a value stored during the await is lost' % (attr, rd, n.lineno, sorted(others)))
+    rep.require('C17.h', 'read-await-overwrite sites with a concurrent writer', n_sites, 3)
     rep.require('C17.h', 'cancel-and-await sites of the receiver task', n_cancel, 1)
     rep.require('C17.h', 'task attributes cleared after an await', n_clear, 2)
 
